@@ -21,6 +21,14 @@ from multiprocessing.connection import wait
 CTX = mp.get_context('spawn')
 
 
+MEMORY_LIMIT_MB = int(os.environ.get('VERIF_WORKER_MEMORY_MB', '1500'))
+
+
+def _rss_mb() -> float:
+    with open('/proc/self/statm') as f:
+        return int(f.read().split()[1]) * os.sysconf('SC_PAGE_SIZE') / 1e6
+
+
 def _worker_main(conn, driver_module: str, func_name: str, scratch: str, wid: int):
     log = os.path.join(scratch, f'worker{wid}.log')
     fd = os.open(log, os.O_WRONLY | os.O_CREAT | os.O_APPEND, 0o644)
@@ -54,6 +62,13 @@ def _worker_main(conn, driver_module: str, func_name: str, scratch: str, wid: in
             res = getattr(mod, fname)(task)
         except BaseException:
             res = {'harness_error': traceback.format_exc()}
+        # the pre-built engine leaves some memory behind at every evaluation: a worker that has grown beyond the limit is
+        # replaced after this task (the results are unaffected; respawns are counted in the evidence)
+        try:
+            if isinstance(res, dict) and _rss_mb() > MEMORY_LIMIT_MB:
+                res['retire'] = True
+        except Exception:
+            pass
         try:
             conn.send(res)
         except BaseException:
